@@ -139,6 +139,8 @@ class Engine:
         self.trace = False
         self.key_all = False  # full path sensitivity (small functions only)
         self.merge_returns = False  # join the partitions created inside an inlined callee at its return (per returned variant)
+        self.split_depth = None  # frames up to this inlining depth have multi-variant exits split per variant
+        self.key_top_outcomes = False  # key on the variant shape of call results in the entry function
         self.key_adts = set()  # ADT paths whose variant switches are always partition predicates
         self.rd_syms = {}  # symbol of a value read from a byte slice -> (base, offset Lin, width in bytes, order class)
         self.cuts = set()  # local functions treated modularly: weak nom-parser contract at call sites, verified stand-alone by the rule
@@ -290,6 +292,8 @@ class Engine:
                     heapq.heappush(heap, (fr.rpo_index.get(tb, 1 << 30), tb))
         if self.merge_returns and parent is not None and len(results) > 1:
             results = self._merge_results(results, fr, len(st0.key) if entry_keylen is None else entry_keylen)
+        if self.merge_returns and self.split_depth is not None and fr.depth <= self.split_depth:
+            results = self._split_results(results, fr)
         out = []
         for key, (s, rv) in results.items():
             # drop the frame's locals
@@ -330,6 +334,42 @@ class Engine:
                 out = out + self._shape_label(f, depth + 1)
             return out
         return ()
+
+    def _split_results(self, results, fr):
+        """An exit whose value may be one of several variants (states joined inside the callee on data conditions) is
+        split into one outcome per variant, each refined with the facts guarded by that variant (two levels deep)."""
+        out = {}
+        for key, (s, rv) in results.items():
+            parts = self._split_value(s, rv, 0)
+            if len(parts) == 1:
+                out[key] = (s, rv)
+                continue
+            for i, (ns, nv, lab) in enumerate(parts):
+                k2 = key + (("split", fr.path.split("::")[-1], lab),)
+                ns.key = k2
+                out[k2] = (ns, nv)
+        return out
+
+    def _split_value(self, st, rv, depth):
+        if not isinstance(rv, Enum) or len(rv.variants) <= 1:
+            if isinstance(rv, Enum) and depth < 2 and len(rv.variants) == 1:
+                vi, fs = rv.variants[0]
+                if len(fs) == 1 and isinstance(fs[0], Enum) and len(fs[0].variants) > 1:
+                    outs = []
+                    for (ns, nv, lab) in self._split_value(st, fs[0], depth + 1):
+                        outs.append((ns, Enum(rv.ty, ((vi, (nv,)),), rv.name, None), (vi,) + lab))
+                    return outs
+            return [(st, rv, ())]
+        outs = []
+        for vi, fs in rv.variants:
+            ns = st.fork()
+            try:
+                one = self.M.refine_enum(ns, rv, {vi})
+            except Dead:
+                continue
+            for (ns2, nv, lab) in self._split_value(ns, one, depth):
+                outs.append((ns2, nv, (vi,) + lab if not lab or lab[0] != vi else lab))
+        return outs or [(st, rv, ())]
 
     def _merge_results(self, results, fr, base):
         """Partitions created inside an inlined callee do not survive its return: exits are joined per
